@@ -190,7 +190,9 @@ class Respeller:
 CORPUS = [
     ['.device ATmega328P', '.equ K = 10', '.set V = K*2', '.def tmp = r16', 'start: ldi tmp, low(K+1) ; load', ' ldd r0, Y+2', ' std Z+K, r1', ' ld r2, X+', ' st -Y, r3', ' lpm r4, Z+',
      ' sbi 5, 1', ' .db low(K), high(V), "ab", \'c\'', ' .dw start, K<<2, -1, ~K & 0xff, !0', ' rjmp start', ' breq start', ' jmp start', ' lds r5, 0x100', ' sts 0x101, r5',
-     '.undef tmp', '.dseg', 'buf: .byte 4', '.cseg', ' ldi r17, byte2(buf)', '.eseg', ' .db 1, 2, 3', '.cseg', ' .org 0x40', ' nop'],
+     '.undef tmp', '.dseg', 'buf: .byte 4', '.cseg', ' ldi r17, byte2(buf)', '.eseg', ' .db 1, 2, 3', '.cseg', ' .org 0x40', ' nop',
+     # the built-in symbol, relative to it, in every kind of operand
+     ' rjmp pc', ' brne pc-1', ' rcall pc+2', ' .dw pc, pc+1', ' ldi r16, low(pc)', ' sbrc r0, 1', ' rjmp pc - 1', ' breq pc + 1', ' ret'],
     ['.macro load', '  ldi @0, @1', '  .if @1 > 5', '  .dw @1 * 2', '  .else', '  .dw 0', '  .endif', '.endm', ' load r16, 7', ' LOAD r17, 2+1', '.ifdef NOPE', ' nop', '.elif 1 == 1', ' ret', '.else', ' sei', '.endif',
      '.define FLAG', '.ifdef FLAG', ' .db 1', '.endif', '.ifndef OTHER', ' .db 2', '.endif', ' .dd 0x12345678, -2', ' .dq 1', ' .db exp2(3), log2(8), abs(-3), lwrd(0x12345), hwrd(0x12345), page(0x12345)'],
 ]
